@@ -22,7 +22,7 @@ import (
 // responses the application collects in its own time.
 
 type c09Spec struct {
-	Kind string `json:"kind"` // grid | opt | chain (also the deep chains of c09_deep_test.go) | loop | slow | held | replace | fan | wire
+	Kind string `json:"kind"` // grid | opt | chain (also the deep chains of c09_deep_test.go) | loop | slow | held | replace | fan | wire | burst
 
 	// grid / opt
 	Recv string `json:"recv,omitempty"` // rep xrep respondent xrespondent xpair1 pair1 xstar star
@@ -44,7 +44,7 @@ type c09Spec struct {
 
 	// loop
 	TTL2 int `json:"ttl2,omitempty"` // TTL of the second receiver in the cycle
-	N    int `json:"n,omitempty"`    // messages sent round the loop; replace: connections replaced one after the other; fan: respondents behind the chain
+	N    int `json:"n,omitempty"`    // burst: messages sent back to back per direction (How: one | both directions; Ctx: queue lengths, 0 = defaults; Clients: receivers); messages sent round the loop; replace: connections replaced one after the other; fan: respondents behind the chain
 
 	// replace (chain in which a connection goes away and is replaced by a new one)
 	// fan: how the surveyor application collects the responses (eager | late | each)
@@ -99,6 +99,7 @@ func TestC09(t *testing.T) {
 	cases = append(cases, c09FanCases(r, rnd)...)
 	cases = append(cases, c09DeepCases(r, rnd)...)
 	cases = append(cases, c09WireCases(r, rnd)...)
+	cases = append(cases, c09BurstCases(r, rnd)...)
 
 	for i := 0; i < r.Pick(3, 30); i++ {
 		cases = append(cases, mon.CaseSpec{Name: "slow-receiver", Spec: c09Spec{Kind: "slow", TTL: i % 3}})
@@ -106,6 +107,7 @@ func TestC09(t *testing.T) {
 	// interleave the cheap and the expensive cases across shards (deterministic shuffle)
 	rnd.Shuffle(len(cases), func(i, j int) { cases[i], cases[j] = cases[j], cases[i] })
 
+	cases = append(cases, c09IDWrapCases(r, rnd)...) // id counters across their boundaries (c09_idwrap_test.go)
 	r.Run(cases, func(c *mon.Case) {
 		sp := c.Spec.(c09Spec)
 		if sp.Procs > 0 {
@@ -131,6 +133,10 @@ func TestC09(t *testing.T) {
 			c09Fan(c, sp)
 		case "wire":
 			c09WireCase(c, sp)
+		case "idwrap":
+			c09IDWrapCase(c, sp)
+		case "burst":
+			c09Burst(c, sp)
 		default:
 			panic(fmt.Sprintf("c09: kind %q", sp.Kind))
 		}
